@@ -128,6 +128,7 @@ type OCSPContent struct {
 	ByName     bool
 	RevAgo     int  // revocation time = now - RevAgo hours
 	InvOnAny   bool // the invalidityDate single extension is also attached to Good / Unknown answers (where it means nothing)
+	NoEmbed    bool // an unauthorised signer's certificate is NOT embedded (the response names it as responder only)
 	Pad        int  // response padded to an exact size: 1 one byte below the client's read limit, 2 exactly the limit, 3 one byte above
 }
 
@@ -141,6 +142,9 @@ func (c OCSPContent) String() string {
 		s += fmt.Sprintf("/reason=%d/inv=%s", c.Reason, invNames[c.InvKind])
 	} else if c.InvOnAny {
 		s += "/meaningless_inv=" + invNames[c.InvKind]
+	}
+	if c.NoEmbed {
+		s += "/signer_certificate_not_embedded"
 	}
 	if c.Pad != 0 {
 		s += "/size=" + []string{"", "limit-1", "limit", "limit+1"}[c.Pad]
